@@ -6,7 +6,7 @@ src = '/verif/seeded/_incoming/' + sid
 log = open(src + '/confirm.log').read()
 assert 'applied' in log and 'build ok' in log and '99% tests passed, 1 tests failed out of 135' in log and log.count('exit=1') == 1 and log.count('exit=0') == 1, log
 head = os.popen('git -C /repo rev-parse --short HEAD').read().strip()
-meta = {"property": sid.split('-')[0], "source": "independent sub-agent given only the property text, a scratch worktree and one line per earlier seed describing the idea to avoid",
+meta = {"property": sid.split('-')[0], "source": os.environ.get("SEED_SOURCE", "independent sub-agent given only the property text, a scratch worktree and one line per earlier seed describing the idea to avoid"),
         "needs_to_manifest": needs,
         "confirmed": {"suite_with_change": "134/135 pass (grid_fault_edge_limits fails on the unchanged tree too)", "demo_with_change": "exit 1", "demo_without_change": "exit 0"},
         "what_i_ran": "tools/confirm_seed.sh %s: fresh worktree of /repo HEAD (%s), git apply patch.diff, cmake+ninja build, ctest -j8, run_demo.sh with the change, git apply -R, rebuild, run_demo.sh without; see confirm.log" % (sid, head),
